@@ -535,7 +535,9 @@ func (c *client) receive(r io.Reader) (err error) {
 	defer func() { returnResult(rpc, response, err) }()
 
 	if header.Exception != nil {
-		err = exceptionToError(*header.Exception.ExceptionClassName, *header.Exception.StackTrace)
+		// both fields are optional in the protobuf
+		err = exceptionToError(header.Exception.GetExceptionClassName(),
+			header.Exception.GetStackTrace())
 		return
 	}
 
